@@ -51,12 +51,18 @@ struct C05 : Check {
 		if (k == 6) return "\"" + std::string(1, (char) (1 + r.below(31)));
 		return "\"\"";
 	}
+	// With one byte per write() a file of n bytes honestly costs n system calls: the per-step syscall
+	// budget (bounded liveness) then only makes sense for moderately sized buffers.
+	// Counts in the thousands multiply (a put of a put ...): at most two per plan, so that the honest cost
+	// of a plan stays far below the CPU watchdog even under ASan.
+	static int &big_left() { static int n = 2; return n; }
 	static std::string count(Rng &r)
 	{
 		int k = (int) r.below(10);
 		if (k < 6) return "";
 		if (k < 8) return std::to_string(r.range(1, 9));
-		if (k == 8) return std::to_string(r.range(10, 300));
+		if (k == 8 || big_left() <= 0) return std::to_string(r.range(10, 300));
+		big_left()--;
 		return std::to_string(r.range(1000, 20000));
 	}
 	static std::string motion(Rng &r)
@@ -262,6 +268,7 @@ struct C05 : Check {
 		p.knobs.stall_pct = r.chance(1, 3) ? (int) r.range(5, 60) : 0;
 		p.knobs.read_policy = r.chance(1, 4) ? (int) r.range(1, 2) : 0;
 		p.knobs.write_policy = r.chance(1, 4) ? (int) r.range(1, 2) : 0;
+		big_left() = p.knobs.write_policy != 1 ? 2 : 0;
 		bool faults = r.chance(1, 2);
 		int nsteps = (int) r.range(3, tier ? 60 : 40);
 		for (int i = 0; i < nsteps; i++) {
